@@ -18,7 +18,7 @@ RULE  = ("one case = one real Multiprocessor.filter call in a fresh process: (n_
 PLAN  = {"quick":    {"shards": 8, "parallel": 5, "cases": 120,  "timeout": 900},
          "thorough": {"shards": 8, "parallel": 5, "cases": 3000, "timeout": 6000}}
 REQUIRED = ["oracle.exactly-once", "oracle.pid-quota", "oracle.exception-contract", "oracle.abandon", "observed.restarts",
-            "observed.multi-worker-runs", "perturb.line-events"]
+            "observed.multi-worker-runs", "perturb.line-events", "oracle.reuse-same-object"]
 ASSUMPTIONS = ["outputs are never None (None is the documented poison pill)",
                "CobaMultiprocessor deliberately turns RuntimeError into coba_exit (spawn bootstrapping guard): RuntimeError is only raised through the plain Multiprocessor", "order of outputs is not asserted (multiset)",
                "a hang is a violation only when the logical deadlock state is established (all workers dead, loader and callback "
@@ -67,7 +67,8 @@ def gen_case(rng, idx=0):
     if m in (1, 2, 3) and rkind == "none" and abandon is None and rng.random() < .3:
         fdr = True; n = min(n, 3); items = n * (m - 1) + 2 + rng.choice([0, 1, 2]); tail = 0; lj = 0
         kmap = {u: kmap.get(u, 1) for u in range(items)}
-    return {"finish_during_replacement": fdr, "tail_delay_ms": tail, "n": n, "m": m, "n_items": items, "items_class": base, "via": via, "mode": mode, "pattern": pat, "kmap": kmap,
+    reuse = rng.choice([2, 3, 5, 7]) if (abandon is None and rng.random() < .35) else 0
+    return {"reuse": reuse, "finish_during_replacement": fdr, "tail_delay_ms": tail, "n": n, "m": m, "n_items": items, "items_class": base, "via": via, "mode": mode, "pattern": pat, "kmap": kmap,
             "raising_kind": rkind, "raising": raising, "abandon": abandon, "perturb": perturb, "perturb_seed": rng.randrange(1 << 30),
             "worker_jitter_ms": wj, "loader_jitter_ms": lj, "consumer_jitter_ms": cj, "watchdog_s": 45, "exc_type": rng.choice(["ValueError", "KeyError", "InjectedFailure", "AssertionError", "EOFError", "TypeError"] if via == "coba" else ["ValueError", "KeyError", "RuntimeError", "InjectedFailure", "AssertionError", "EOFError", "TypeError"])}
 
@@ -163,6 +164,14 @@ def judge(spec, res, processed):
         elif gotc != expected:
             lost = sorted((expected - gotc).elements())
             v.append((f"lost-output/{feat}", f"{len(lost)} outputs never delivered, e.g. {lost[:5]}; loaded={sum(1 for e in res['events'] if e[0]=='loaded')} processed={len(pc)}"))
+    if spec.get("reuse") and spec["abandon"] is None:
+        obs["reuse"] = 1
+        want2 = Counter((1000 + i, 0) for i in range(spec["reuse"]))
+        got2 = Counter((g[0], g[1]) for g in res.get("got2", []))
+        if res.get("raised2"):
+            v.append((f"reuse/second-call-raised/first-call-{'raised' if spec['raising'] else 'ok'}/{feat}", f"a second call on the same object with a healthy stream raised {res['raised2']}"))
+        elif got2 != want2:
+            v.append((f"reuse/second-call-wrong-outputs/first-call-{'raised' if spec['raising'] else 'ok'}/{feat}", f"second call delivered {sorted(got2.elements())} expected {sorted(want2.elements())}"))
     return v, None, obs
 
 def trace_hash(res):
@@ -189,6 +198,7 @@ def check_case(spec, ctx=None, workdir=None):
                 if spec["m"] > 0: ctx.count("oracle.pid-quota")
                 if spec["raising"]: ctx.count("oracle.exception-contract")
                 if spec["abandon"] is not None: ctx.count("oracle.abandon")
+                if obs.get("reuse"): ctx.count("oracle.reuse-same-object")
                 if obs.get("restarts", 0) > 0: ctx.count("observed.restarts", obs["restarts"])
                 if obs.get("pids", 0) > 1: ctx.count("observed.multi-worker-runs")
                 st = res.get("stats", {})
